@@ -1642,14 +1642,15 @@ func (ctx *RenderContext) contains(container, item interface{}) (bool, error) {
 		// Use string conversion only once
 		return strings.Contains(c, ctx.ToString(item)), nil
 	case []interface{}:
-		// For small slices, linear search is fine
-		// For larger slices (>50 items), consider a map-based approach
-		if len(c) > 50 {
-			// Create a temporary map for O(1) lookups
-			// Only worth doing for sufficiently large slices
+		// For larger slices (>50 items) try a map lookup first. Only scalar values can be
+		// map keys: a list, a hash or a struct among the elements (or as the item) would
+		// make the runtime panic with "hash of unhashable type"
+		if len(c) > 50 && isMapKeyable(item) {
 			tempMap := make(map[interface{}]struct{}, len(c))
 			for _, v := range c {
-				tempMap[v] = struct{}{}
+				if isMapKeyable(v) {
+					tempMap[v] = struct{}{}
+				}
 			}
 
 			// For numeric items, try direct lookup first
@@ -1661,17 +1662,9 @@ func (ctx *RenderContext) contains(container, item interface{}) (bool, error) {
 			if _, ok := tempMap[ctx.ToString(item)]; ok {
 				return true, nil
 			}
-
-			// Fall back to deep equality comparison
-			for k := range tempMap {
-				if ctx.equals(k, item) {
-					return true, nil
-				}
-			}
-			return false, nil
 		}
 
-		// For small slices, linear search
+		// Compare with every element
 		for _, v := range c {
 			if ctx.equals(v, item) {
 				return true, nil
@@ -1691,12 +1684,13 @@ func (ctx *RenderContext) contains(container, item interface{}) (bool, error) {
 	case reflect.String:
 		return strings.Contains(rv.String(), ctx.ToString(item)), nil
 	case reflect.Array, reflect.Slice:
-		// Optimize for large slices/arrays
-		if rv.Len() > 50 {
-			// Same map-based optimization as above
+		// Optimize for large slices/arrays: same map lookup as above, scalar values only
+		if rv.Len() > 50 && isMapKeyable(item) {
 			tempMap := make(map[interface{}]struct{}, rv.Len())
 			for i := 0; i < rv.Len(); i++ {
-				tempMap[rv.Index(i).Interface()] = struct{}{}
+				if v := rv.Index(i).Interface(); isMapKeyable(v) {
+					tempMap[v] = struct{}{}
+				}
 			}
 
 			// Try direct lookup
@@ -1708,17 +1702,9 @@ func (ctx *RenderContext) contains(container, item interface{}) (bool, error) {
 			if _, ok := tempMap[ctx.ToString(item)]; ok {
 				return true, nil
 			}
-
-			// Fall back to equality comparison
-			for k := range tempMap {
-				if ctx.equals(k, item) {
-					return true, nil
-				}
-			}
-			return false, nil
 		}
 
-		// For small collections, linear search
+		// Compare with every element
 		for i := 0; i < rv.Len(); i++ {
 			if ctx.equals(rv.Index(i).Interface(), item) {
 				return true, nil
@@ -1734,6 +1720,20 @@ func (ctx *RenderContext) contains(container, item interface{}) (bool, error) {
 	}
 
 	return false, nil
+}
+
+// isMapKeyable reports whether v can be used as the key of a map[interface{}]: values of
+// slice, map and func types, and structs or arrays that hold them, cannot be hashed.
+// Only the scalar types that occur in template data are accepted.
+func isMapKeyable(v interface{}) bool {
+	switch v.(type) {
+	case nil, bool, string,
+		int, int8, int16, int32, int64,
+		uint, uint8, uint16, uint32, uint64,
+		float32, float64:
+		return true
+	}
+	return false
 }
 
 // equals checks if two values are equal
